@@ -66,7 +66,6 @@ theorem compoundCore_eq (starts ends : List Int) (st : Strand) :
   by_cases h : starts.length = ends.length ∧ 0 < starts.length
   · simp only [h, not_true_eq_false, ite_false]
     rw [all_perm (sortBlocksI_perm st (starts.zip ends))]
-    simp
   · simp [h]
 
 theorem zip_ne_nil {starts ends : List Int} (h : lensOk starts ends) : starts.zip ends ≠ [] := by
@@ -77,30 +76,33 @@ theorem zip_ne_nil {starts ends : List Int} (h : lensOk starts ends) : starts.zi
     | nil => simp at h1
     | cons b u => simp
 
-theorem mkCompoundRaw_noInternal (starts ends : List Int) (st : Strand) (plen : Option Nat) :
-    NoInternal (mkCompoundRaw starts ends st plen) := by
-  intro c h
-  unfold mkCompoundRaw at h
-  rw [compoundCore_eq] at h
-  cases plen <;> simp only [bind, Except.bind, pure, Except.pure, raise] at h <;> (repeat' split at h) <;> cases h
-
 /-- the as-coded acceptance condition (no comparison with 0 anywhere) -/
 def acceptedCompound (starts ends : List Int) (plen : Option Nat) : Prop :=
   lensOk starts ends ∧ (∀ b ∈ starts.zip ends, b.1 ≤ b.2) ∧
     (match plen with | none => True | some n => ∀ b ∈ starts.zip ends, b.2 ≤ (n : Int))
 
+theorem mkCompoundRaw_unfold (starts ends : List Int) (st : Strand) (plen : Option Nat) :
+    mkCompoundRaw starts ends st plen =
+      if ¬ lensOk starts ends then raise .Location
+      else match plen with
+        | none => compoundCore starts ends st
+        | some n => (compoundCore starts ends st).bind fun inner =>
+            if maxEndI inner > (n : Int) then raise .InvalidPosition else compoundCore starts ends st := rfl
+
 /-- exact characterisation of the constructor, for ALL inputs (negative coordinates included) -/
 theorem mkCompoundRaw_eq (starts ends : List Int) (st : Strand) (plen : Option Nat) :
     (acceptedCompound starts ends plen → mkCompoundRaw starts ends st plen = .ok (sortBlocksI st (starts.zip ends))) ∧
     (¬ acceptedCompound starts ends plen → ∃ k, mkCompoundRaw starts ends st plen = .error (.doc k)) := by
-  unfold acceptedCompound mkCompoundRaw
-  rw [compoundCore_eq]
+  rw [mkCompoundRaw_unfold]
+  unfold acceptedCompound
   by_cases hl : lensOk starts ends
-  · have hl' : starts.length = ends.length ∧ 0 < starts.length := hl
+  · rw [if_neg (not_not_intro hl)]
     by_cases hv : (starts.zip ends).all (fun b => decide (b.1 ≤ b.2)) = true
     · have hv' : ∀ b ∈ starts.zip ends, b.1 ≤ b.2 := by simpa using hv
+      have hc : compoundCore starts ends st = .ok (sortBlocksI st (starts.zip ends)) := by
+        rw [compoundCore_eq, if_neg (not_not_intro hl), if_pos hv]; rfl
       cases plen with
-      | none => simp [hl, hl', hv, hv', pure, Except.pure]
+      | none => exact ⟨fun _ => hc, fun h => absurd ⟨hl, hv', trivial⟩ h⟩
       | some n =>
           have hne : sortBlocksI st (starts.zip ends) ≠ [] := by
             intro h0
@@ -110,20 +112,30 @@ theorem mkCompoundRaw_eq (starts ends : List Int) (st : Strand) (plen : Option N
           have hmax := maxEndI_le_iff (sortBlocksI st (starts.zip ends)) n hne
           have hmem : (∀ b ∈ sortBlocksI st (starts.zip ends), b.2 ≤ (n : Int)) ↔ ∀ b ∈ starts.zip ends, b.2 ≤ (n : Int) :=
             ⟨fun h b hb => h b ((sortBlocksI_perm st _).mem_iff.mpr hb), fun h b hb => h b ((sortBlocksI_perm st _).mem_iff.mp hb)⟩
+          simp only [hc, Except.bind]
           by_cases hm : maxEndI (sortBlocksI st (starts.zip ends)) > (n : Int)
           · have hnot : ¬ ∀ b ∈ starts.zip ends, b.2 ≤ (n : Int) := by
               intro h; have := hmax.mpr (hmem.mpr h); omega
-            refine ⟨fun h => absurd h.2.2 hnot, fun _ => ?_⟩
-            simp [hl, hl', hv, hm, bind, Except.bind, pure, Except.pure, raise]
+            rw [if_pos hm]
+            exact ⟨fun h => absurd h.2.2 hnot, fun _ => ⟨_, rfl⟩⟩
           · have hall : ∀ b ∈ starts.zip ends, b.2 ≤ (n : Int) := hmem.mp (hmax.mp (by omega))
-            refine ⟨fun _ => ?_, fun h => absurd ⟨hl, hv', hall⟩ h⟩
-            simp [hl, hl', hv, hm, bind, Except.bind, pure, Except.pure, raise]
+            rw [if_neg hm]
+            exact ⟨fun _ => rfl, fun h => absurd ⟨hl, hv', hall⟩ h⟩
     · have hv' : ¬ ∀ b ∈ starts.zip ends, b.1 ≤ b.2 := by simpa using hv
+      have hc : compoundCore starts ends st = raise .InvalidPosition := by
+        rw [compoundCore_eq, if_neg (not_not_intro hl), if_neg hv]
       refine ⟨fun h => absurd h.2.1 hv', fun _ => ?_⟩
-      cases plen <;> simp [hl, hl', hv, bind, Except.bind, raise]
-  · have hl' : ¬ (starts.length = ends.length ∧ 0 < starts.length) := hl
-    refine ⟨fun h => absurd h.1 hl, fun _ => ?_⟩
-    simp [hl', raise]
+      cases plen <;> simp only [hc, Except.bind, raise] <;> exact ⟨_, rfl⟩
+  · rw [if_pos hl]
+    exact ⟨fun h => absurd h.1 hl, fun _ => ⟨_, rfl⟩⟩
+
+theorem mkCompoundRaw_noInternal (starts ends : List Int) (st : Strand) (plen : Option Nat) :
+    NoInternal (mkCompoundRaw starts ends st plen) := by
+  intro c h
+  obtain ⟨h1, h2⟩ := mkCompoundRaw_eq starts ends st plen
+  by_cases ha : acceptedCompound starts ends plen
+  · rw [h1 ha] at h; cases h
+  · obtain ⟨k, hk⟩ := h2 ha; rw [hk] at h; cases h
 
 /-! ### the specification -/
 
@@ -167,6 +179,7 @@ theorem mkCompoundRaw_spec_partial (starts ends : List Int) (st : Strand) (plen 
       cases plen with
       | none => rfl
       | some n =>
+          show ((sortBlocksI st (starts.zip ends)).all fun b => decide (b.2 ≤ (n : Int))) = true
           rw [all_perm hperm]
           simp only [List.all_eq_true, decide_eq_true_eq]
           exact ha.2.2
@@ -179,6 +192,12 @@ theorem mkCompoundRaw_spec_partial (starts ends : List Int) (st : Strand) (plen 
 
 /-- F-C19g: a location with a negative start IS constructed (the stored blocks are `[(-2, 3), (5, 7)]`). -/
 theorem mkCompoundRaw_negative_witness :
-    mkCompoundRaw [-2, 5] [3, 7] .plus none = .ok [(-2, 3), (5, 7)] := by rfl
+    mkCompoundRaw [-2, 5] [3, 7] .plus none = .ok [(-2, 3), (5, 7)] := by
+  have h := (mkCompoundRaw_eq [-2, 5] [3, 7] .plus none).1
+    ⟨⟨rfl, by decide⟩, by decide, trivial⟩
+  rw [h]
+  have hs : sortBlocksI .plus ([-2, 5].zip [3, 7]) = [(-2, 3), (5, 7)] :=
+    List.mergeSort_of_pairwise (by decide)
+  rw [hs]
 
 end BioCantor.Proofs.Val
